@@ -478,7 +478,9 @@ func (ex *Exec) loopBack(fr *Frame, li *loopInfo, st *State, from *ssa.BasicBloc
 		ex.obligeNamed(st, fmt.Sprintf("%s.step.%s@b%d", name, invNo(inv), from.Index), "loop.step", g, "loop invariant preserved: "+inv.Text, pos)
 	}
 	for _, ab := range li.spec.AtBack {
+		fr.prevSt = li.headSt
 		g, live := ex.specBoolIfLive(fr, st, ab)
+		fr.prevSt = nil
 		if !live {
 			// the clause names a local whose declaration this path did not reach (e.g. a continue before it)
 			continue
